@@ -40,8 +40,19 @@ def main():
         elif args[i] == "--wt":
             wt = args[i + 1]
         i += 2
-    wt = wt or "/tmp/mut/%s" % pid
-    sd = os.path.join(wt, "_seeded")
+    src_wt = wt or "/tmp/mut/%s" % pid
+    sd = os.path.join(src_wt, "_seeded")
+    if not os.path.exists(os.path.join(sd, "patch.diff")):
+        sd = os.path.join(VERIF, "seeded", name)
+    # fresh scratch worktree at /repo's current HEAD with the patch applied
+    wt = "/tmp/mut/_verify_%s" % name
+    sh("git -C /repo worktree remove --force %s" % wt)
+    rc, out = sh("git -C /repo worktree add -q %s HEAD" % wt)
+    rc, out = sh("git apply %s/patch.diff" % sd, cwd=wt)
+    if rc != 0:
+        print("patch does not apply to HEAD:", out[-500:])
+        sh("git -C /repo worktree remove --force %s" % wt)
+        return
     env = dict(os.environ, PYTHONPATH=os.path.join(wt, "src"))
     meta = {"property": pid, "worktree_base": sh("git rev-parse HEAD", cwd=wt)[1].strip()}
     # (1) demo with / without
@@ -78,10 +89,11 @@ def main():
     dst = os.path.join(VERIF, "seeded", name)
     os.makedirs(dst, exist_ok=True)
     for f in ("patch.diff", "demo.py", "notes.txt"):
-        if os.path.exists(os.path.join(sd, f)):
+        if os.path.exists(os.path.join(sd, f)) and os.path.abspath(sd) != os.path.abspath(dst):
             shutil.copy(os.path.join(sd, f), os.path.join(dst, f))
     with open(os.path.join(dst, "meta.json"), "w") as f:
         json.dump(meta, f, indent=1)
+    sh("git -C /repo worktree remove --force %s" % wt)
     # restore generated files for the real repo
     sh("timeout 1200 ./check setup", cwd=VERIF)
 
